@@ -933,6 +933,58 @@ impl Interp {
                     },
                 },
             },
+            Op::EdgeClose { v, t, knob } => {
+                let v = self.v_of(*v);
+                let fl = pre.v[v].cfg.fluctuation_limit_ratio.u128();
+                let frac = pre.ecfg.partial_liquidation_ratio.u128();
+                if fl == 0 || frac >= d {
+                    return Act::Skip;
+                }
+                let t = pick_holder(pre, v, *t, true);
+                let p = match &pre.pos[v][t] {
+                    Some(p) if !p.size.is_zero() && t != WHALE => p.clone(),
+                    _ => return Act::Skip,
+                };
+                let long = !p.size.is_negative();
+                // closing a long sells base (price falls towards the lower edge); the whale pushes the same way first
+                let up = !long;
+                let over = |it: &Interp| -> Option<bool> {
+                    it.w.query::<bool, _>(&it.w.vamms[v], &vamm::QueryMsg::IsOverFluctuationLimit { direction: p.direction.clone(), base_asset_amount: p.size.value })
+                        .ok()
+                };
+                match over(self) {
+                    Some(false) => {}
+                    _ => return Act::Skip,
+                }
+                let x = pre.v[v].state.quote_asset_reserve.u128();
+                let flppm = mul_div_floor(fl, 1_000_000, d);
+                let (mut lo, mut hi) = (0u128, push_quote_amount(x, up, (flppm * 5 / 2 + 1_000).min(990_000)).max(2));
+                let snap = self.w.snapshot();
+                for _ in 0..130 {
+                    if hi - lo <= 1 {
+                        break;
+                    }
+                    let mid = lo + (hi - lo) / 2;
+                    let act = self.whale_trade(pre, v, up, mid);
+                    let r = self.exec_act(&act);
+                    let ov = if r.ok { over(self) } else { None };
+                    self.w.restore(&snap);
+                    match ov {
+                        Some(false) => lo = mid,
+                        _ => hi = mid,
+                    }
+                }
+                if lo == 0 {
+                    return Act::Skip;
+                }
+                let amt = match idx(*knob, 4) {
+                    0 | 1 => lo,
+                    2 => lo + 1,
+                    _ => lo.saturating_sub(1).max(1),
+                };
+                self.w.follow = Some(Act::Close { t, v, limit: 0 });
+                self.whale_trade(pre, v, up, amt)
+            }
             Op::Intruder { v, who, kind, knob } => {
                 let v = self.v_of(*v);
                 let senders = [self.w.owner.clone(), self.w.stranger.clone(), self.w.traders[0].clone(), self.w.traders[WHALE].clone(), self.w.pauser.clone(), self.w.liquidator.clone()];
@@ -1148,8 +1200,24 @@ pub fn run_history(case: &HistCase, mon: &mut dyn Monitor, ctx: &Ctx, out: &mut 
     let mut trace: Vec<Value> = vec![];
     let mut pre = observe(&it.w);
     it.w.fmodel.start(&pre);
-    for (i, op) in case.ops.iter().enumerate() {
-        let act = it.resolve(op, &pre);
+    let mut ops_iter = case.ops.iter().enumerate();
+    let mut cur_i = 0usize;
+    loop {
+        // a directed op may have queued the action that has to follow it immediately
+        let act = match it.w.follow.take() {
+            Some(a) => {
+                out.count("op.follow_up");
+                a
+            }
+            None => match ops_iter.next() {
+                Some((i, op)) => {
+                    cur_i = i;
+                    it.resolve(op, &pre)
+                }
+                None => break,
+            },
+        };
+        let i = cur_i;
         if let Act::Skip = act {
             out.count("op.skip");
             continue;
